@@ -75,8 +75,15 @@ def oracleMulAdd (f : Fmt) (la ra lb rb x a b obs : Fl) : Verdict :=
     let u := uro f
     let P := x.toRat * (a.toRat * ra.toRat / la.toRat)
     let B := b.toRat * rb.toRat / lb.toRat
+    let tol := u * (3 * ratAbs P + 3 * ratAbs B + 2 * ratAbs (P + B))
     if !(Fl.isNormal f obs) && !(obs.isZero) then .guard "overflow/underflow"
-    else if ratAbs (obs.toRat - (P + B)) ≤ u * (3 * ratAbs P + 3 * ratAbs B + 2 * ratAbs (P + B)) then .pass
+    else if ratAbs (obs.toRat - (P + B)) ≤ tol then .pass
+    -- a zero result may be an underflow of `x·a + b` (a relative tolerance cannot cover it when the stored
+    -- addend is zero): guarded when the exact value is within the tolerance of half the least subnormal
+    -- (Proofs/MoreOracleSound.lean: witnesses that the oracle without this clause rejected the model; it
+    -- also fired on the unchanged tree in a thorough run — a false alarm, see DESIGN §0.3)
+    else if obs.isZero && 2 * ratAbs (P + B) ≤ 2 * tol + Fl.toRat (Fl.fin false 1 f.emin) then
+      .guard "overflow/underflow"
     else .fail "mul_add is more than a few u away from x·a + b in the base units of x"
 
 /-- `a.hypot(b)` with `b` in other base units: `obs² ≈ A² + (B·R/L)²` -/
